@@ -395,6 +395,23 @@ func methodToFuncAliases(pkgs map[string]*packages.Package) map[string]string {
 			}
 			if len(cands) == 1 {
 				out[short+"."+cands[0].Name()] = key
+				continue
+			}
+			// the helper kept its name but changed shape (another first parameter, a parameter
+			// dropped): it is still that helper — it is aliased by name and not inlined; rules that
+			// depend on its parameter positions may report an undecided shape
+			for _, x := range extras {
+				if x.Name() == cf.Name {
+					nSameName := 0
+					for _, y := range extras {
+						if y.Name() == cf.Name {
+							nSameName++
+						}
+					}
+					if nSameName == 1 {
+						out[short+"."+x.Name()] = key
+					}
+				}
 			}
 		}
 	}
